@@ -75,6 +75,37 @@ PROPS["C13"] = {
     "expect_probes": ["defer.reclaimer_ran_everything", "defer.run_with_calls", "os.futex_wait_blocked"],
 }
 
+PROPS["C10"] = {
+    "level": "exploration",
+    "scenarios": {"wfcq": {"quick": 250000, "thorough": 8000000, "thorough_time": 900}},
+    "rule": "one evaluation = one seeded simulated execution of 2-4 threads on two cds_wfcq queues (or the legacy cds_wfq): enqueue, blocking / with_state / non-blocking dequeue, empty(), "
+            "splice in both directions (blocking and non-blocking), first/next iteration, in the locked multi-consumer or the lock-free single-consumer scheme; dequeued nodes are freed at once (tracked arena). "
+            "Oracle: exact WGL linearizability check of the recorded history (<= 30 ops) against a FIFO model in which enqueue reports was-non-empty, splice is drain-then-append inside its call, "
+            "iteration equals the content at one instant, plus a final iteration of both queues (conservation and order). Non-trivial = operations of different threads overlap; distinct = distinct event-log fingerprints.",
+    "assumptions": COMMON_ASSUME + ["WOULDBLOCK results are treated as no-ops here; their legality is checked under C17"],
+    "expect_probes": ["wfcq.splice", "wfcq.dequeue_wouldblock", "wfcq.iter_wouldblock", "wfcq.splice_wouldblock", "sched.stall_victim_frozen"],
+}
+PROPS["C11"] = {
+    "level": "exploration",
+    "scenarios": {"stacks": {"quick": 250000, "thorough": 8000000, "thorough_time": 900}},
+    "rule": "one evaluation = one seeded simulated execution of 2-4 threads on a cds_wfs, cds_lfs or legacy cds_lfs_rcu stack: push, pop (blocking, with_state, non-blocking), pop_all + iteration, empty(), "
+            "pop-then-re-push of the same node, under the mutex-protected, single-consumer or RCU-protected scheme (any flavor; nodes freed or re-pushed only after synchronize_rcu()). "
+            "Oracle: exact WGL check against a LIFO model (push reports was-non-empty, LAST state, pop_all returns the whole content in LIFO order) plus a final pop_all (conservation); tracked-arena use-after-free. "
+            "Non-trivial = operations of different threads overlap; distinct = distinct event-log fingerprints.",
+    "assumptions": COMMON_ASSUME,
+    "expect_probes": ["stack.node_recycled", "stack.pop_wouldblock", "sched.stall_victim_frozen"],
+}
+PROPS["C12"] = {
+    "level": "exploration",
+    "scenarios": {"lfq": {"quick": 200000, "thorough": 6000000, "thorough_time": 900}},
+    "rule": "one evaluation = one seeded simulated execution of 2-4 threads enqueueing and dequeueing a cds_lfq queue inside read-side sections of a seed-chosen flavor; dequeued nodes are freed through call_rcu, "
+            "freed after synchronize_rcu() or re-enqueued after a grace period. Oracles: exact WGL check against a FIFO model (NULL only if empty at some instant), returned nodes are user nodes, "
+            "dummy nodes go through the tracked allocator (early reclamation = use-after-free report), cds_lfq_destroy_rcu at quiescence succeeds iff empty. "
+            "Non-trivial = operations of different threads overlap; distinct = distinct event-log fingerprints.",
+    "assumptions": COMMON_ASSUME,
+    "expect_probes": ["lfq.node_recycled", "os.futex_wait_blocked"],
+}
+
 NOT_APPLICABLE = {}
 
 _SIM_NOTE = ("Trusted base: the usim runtime (scheduler, TSO model, simulated OS, tracked arena), gcc's access instrumentation, "
@@ -101,4 +132,13 @@ MANIFEST_TEXT = {
     "C13": {"design_ref": "3.13",
             "level_text": "Seeded exploration of queuing threads, the reclaimer thread, barriers and (un)registration with adversarial function/argument encodings and small queue sizes; sequence-equality, interval and inclusion oracles.",
             "level_note": _SIM_NOTE},
+    "C10": {"design_ref": "3.10",
+            "level_text": "Seeded exploration of enqueuers (including ones suspended between the tail exchange and the link store), dequeuers, splicers and iterators under SC and simulated TSO; every history is decided exactly by a WGL linearizability checker against a FIFO model.",
+            "level_note": _SIM_NOTE + " Histories are bounded to 30 operations so the exact check stays tractable."},
+    "C11": {"design_ref": "3.11",
+            "level_text": "Seeded exploration of pushers, poppers and pop_all callers for the three stacks and three synchronisation schemes, with node recycling through grace periods; exact WGL check against a LIFO model.",
+            "level_note": _SIM_NOTE + " Histories are bounded to 30 operations."},
+    "C12": {"design_ref": "3.12",
+            "level_text": "Seeded exploration of concurrent enqueue/dequeue inside read-side sections on every flavor; exact WGL check against a FIFO model, dummy-node and reclamation oracles, destroy-iff-empty.",
+            "level_note": _SIM_NOTE + " Histories are bounded to ~30 operations."},
 }
